@@ -41,14 +41,17 @@ func newVoteDistribution(proofs map[string]gcrypto.CommonMessageSignatureProof, 
 	// TODO: ensure we don't double count a validator,
 	// if one public key is present in multiple votes somehow.
 
-	var bs bitset.BitSet
+	var bs, present bitset.BitSet
 	for blockHash, proof := range proofs {
 		proof.SignatureBitSet(&bs)
 		for i, ok := bs.NextSet(0); ok && int(i) < len(vals); i, ok = bs.NextSet(i + 1) {
-			pow := vals[int(i)].Power
-			d.BlockVotePower[string(blockHash)] += pow
-			d.VotePowerPresent += pow
+			d.BlockVotePower[string(blockHash)] += vals[int(i)].Power
 		}
+		present.InPlaceUnion(&bs)
+	}
+	// Count each validator once, even if it signed more than one target.
+	for i, ok := present.NextSet(0); ok && int(i) < len(vals); i, ok = present.NextSet(i + 1) {
+		d.VotePowerPresent += vals[int(i)].Power
 	}
 
 	return d
